@@ -53,7 +53,9 @@ def run_one(ctx, mod, tape):
     except Violation as v:
         rec["violation"] = {"sig": v.sig, "msg": v.msg, "detail": v.detail}
     except StepCapExceeded as e:
-        rec["harness_error"] = {"kind": "step-cap", "msg": str(e)}
+        # an oversized run: skipped and counted, neither a violation nor a harness failure
+        rec["result"] = {"desc": None, "probes": {"skipped.step-cap": 1}, "nontrivial": False,
+                         "known_outcomes": ["skipped:step-cap"]}
     except HarnessError as e:
         rec["harness_error"] = {"kind": "harness", "msg": str(e), "tb": traceback.format_exc()}
     except Exception as e:  # a bug in the machinery: classified apart from VIOLATION
